@@ -42,7 +42,7 @@ func init() {
 				if src, ok := m.ghost[fmt.Sprintf("json:%d", data.ID)].(*IfaceV); ok {
 					if sp, ok := src.T.(*types.Pointer); ok && types.Identical(sp.Elem(), pt.Elem()) {
 						if p, ok := src.V.(*Ptr); ok && p != nil && p.Cell != nil {
-							dst.V.(*Ptr).store(p.load())
+							dst.V.(*Ptr).store(jsonMergeOmitted(pt.Elem(), dst.V.(*Ptr).load(), p.load()))
 							return &IfaceV{}
 						}
 					}
